@@ -40,7 +40,8 @@ theorem stageBound_of_fold (k : Kind) (b : Nat → Nat)
       exact hd
     simp only [stageTr]
     by_cases hi : k.initStopped = true
-    · simp [hi, Tr.answers, Term.isMore]
+    · simp only [hi, ↓reduceIte]
+      rcases k.initErr with _ | e <;> simp [Tr.answers, Term.isMore]
     · simp only [hi, Bool.false_eq_true, ↓reduceIte]
       rw [isMore_eq hm]
       exact (h d.items n hlen).answers
